@@ -56,7 +56,7 @@ let on_step before after (s, fl, st, ft, rc, en) =
      | _ -> print_endline ("spec VIOLATION " ^ show_viols vs ^ (if raw_same then "" else " raw-dump-text-changed@0")));
     print_endline "attrs ok"
   end else begin
-    (match restrict_spec_check before.pd after.pd s fl with
+    (match restrict_spec_check before.pd after.pd s fl @ dont_merge_check before.pd after.pd s fl (dont_merge_ids before) with
      | [] -> print_endline "spec ok"
      | vs -> print_endline ("spec VIOLATION " ^ show_viols vs));
     (* attributes of survivors, from the raw text, keyed by gp *)
